@@ -129,7 +129,12 @@ class _ThreadWakeup:
             self._reader.close()
 
     def wakeup(self):
-        if not self._closed:
+        # One pending message is enough to wake the manager thread up, which
+        # then drains the pipe at once: do not pile up another one. The pipe
+        # could otherwise fill up and block the caller, which holds the
+        # shutdown lock that the manager thread may need before it drains the
+        # pipe again.
+        if not self._closed and not self._reader.poll():
             self._writer.send_bytes(b"")
 
     def clear(self):
